@@ -1027,6 +1027,49 @@ def rule_r11(ctx):
                   "instead of the atom being answered", "dominated by not (params[1] < params[0])")
     if n != 1:
         raise Unrecognised("C05.R11", c, f"expected one quantifier-emitting constructor (found {n})")
+    # the bounds text: upper bound present exactly when the declaration has two parameters (an explicit upper bound 0 means 'at most zero', not 'unbounded')
+    bv = single_assignment_in(f, "bounds")
+    if bv is None:
+        raise Unrecognised("C05.R11", c, "`bounds` text not found")
+
+    def tst(e, nparams, hi_zero):
+        t = " ".join(src(e).split())
+        if t in ("len(params) > 1", "len(params) >= 2", "len(params) == 2"):
+            return nparams == 2
+        if t in ("len(params) == 1", "len(params) < 2"):
+            return nparams == 1
+        if t in ("params[1]", "params[1] != 0", "params[1] > 0"):
+            if nparams < 2:
+                raise Unrecognised("C05.R11", c, "params[1] tested without a length test first")
+            return not hi_zero
+        if isinstance(e, ast.UnaryOp) and isinstance(e.op, ast.Not):
+            return not tst(e.operand, nparams, hi_zero)
+        if isinstance(e, ast.BoolOp):
+            if isinstance(e.op, ast.And):
+                for v in e.values:
+                    if not tst(v, nparams, hi_zero):
+                        return False
+                return True
+            for v in e.values:
+                if tst(v, nparams, hi_zero):
+                    return True
+            return False
+        raise Unrecognised("C05.R11", c, f"test `{t}` in the bounds text not understood")
+
+    def pick(e, nparams, hi_zero):
+        while isinstance(e, ast.IfExp):
+            e = e.body if tst(e.test, nparams, hi_zero) else e.orelse
+        return e
+
+    for nparams, hi_zero, label in ((1, False, "(_ re.loop lo)"), (2, True, "(_ re.loop lo 0)"), (2, False, "(_ re.loop lo hi)")):
+        e = pick(bv, nparams, hi_zero)
+        if not isinstance(e, ast.JoinedStr):
+            raise Unrecognised("C05.R11", c, f"bounds text for {label} is not an f-string")
+        parts = [src(v.value) for v in e.values if isinstance(v, ast.FormattedValue)]
+        has_hi = "params[1]" in parts
+        ctx.check(parts[:1] == ["params[0]"] and has_hi == (nparams == 2), "R11-loop-bounds-text", c, f"{label}: upper bound {'present' if nparams == 2 else 'absent'}", site(bv),
+                  f"for {label} the quantifier text is built from {parts}: an explicit upper bound must always be written (`(_ re.loop 0 0)` denotes exactly the empty word, `{{0,}}` is r*), and a missing one must be left out",
+                  "{lo,hi} for two parameters, {lo,} for one")
 
 
 def rule_r12(ctx, prefix="R12"):
